@@ -5,14 +5,16 @@ use crate::runner::Scenario;
 pub mod common;
 pub mod c01;
 pub mod c02;
+pub mod c03;
 pub mod c05;
 pub mod c06;
 pub mod c11;
 pub mod c12;
+pub mod c14;
 pub mod c15;
 
 pub fn all() -> Vec<&'static Scenario> {
-    vec![&c01::IDENTITY, &c01::VERIFIERS, &c02::RPC, &c05::MUTUAL, &c06::HOSTILE, &c11::DEADLINE, &c12::ABANDON, &c15::LIMITS]
+    vec![&c01::IDENTITY, &c01::VERIFIERS, &c02::RPC, &c03::EXPECTED, &c05::MUTUAL, &c06::HOSTILE, &c11::DEADLINE, &c12::ABANDON, &c14::NAMES, &c15::LIMITS]
 }
 
 pub fn for_property(id: &str) -> Vec<&'static Scenario> {
